@@ -27,7 +27,7 @@ TTYPE = ["TCoinbase", "TReceived", "TSent", "TRecvCancelled", "TSentCancelled", 
 
 # (file, function, expected number of wallet_lock! acquisitions, model sections)
 SECTIONS = [
-    ("libwallet/src/api_impl/owner.rs", "update_wallet_state", 5, "U1 U2 U4 U8 U9 U10(loop)"),
+    ("libwallet/src/api_impl/owner.rs", "update_wallet_state", 6, "U1 U2 U4 U8 U9 U10(loop)"),
     ("libwallet/src/api_impl/owner.rs", "update_outputs", 1, "U3"),
     ("libwallet/src/api_impl/owner.rs", "update_txs_via_kernel", 2, "U6 U7(loop)"),
     ("libwallet/src/api_impl/owner.rs", "cancel_tx", 1, "CF (after update_wallet_state)"),
@@ -248,7 +248,13 @@ def projection(snap):
                                "n_in", "n_out", "excess", "has_proof", "proof_sender_sig", "stored_tx",
                                "reverted_after")}
         txs.append((t["id"], d))
-    order = sorted(txs, key=lambda x: (json.dumps(x[1], sort_keys=True), x[0]))
+    # ties between entries of equal content are broken by the outputs that point to them, so that the
+    # canonical form does not depend on the order in which equal entries happened to be numbered
+    linked = collections.defaultdict(list)
+    for o in snap["outputs"]:
+        if o["tx"] is not None:
+            linked[o["tx"]].append((o["child"], o["mmr"] is not None, o["status"]))
+    order = sorted(txs, key=lambda x: (json.dumps(x[1], sort_keys=True), sorted(linked[x[0]]), x[0]))
     ren = {tid: i for i, (tid, _) in enumerate(order)}
     outs = []
     for o in snap["outputs"]:
@@ -268,30 +274,257 @@ def obs_key(threads, r):
 
 # ------------------------------------------------------------------ harness driver
 
+# (scenario, preemption bound, prefix depth used to shard the DFS over processes)
 QUICK = [
-    # (scenario, bound, prefix depth for sharding)
-    ("send_nochange_finalize", 1000, 1),
-    ("send_change_finalize", 1000, 1),
-    ("recv_cpfin", 1000, 1),
-    ("init_lock", 1000, 1),
-    ("scan_restore_receive", 1000, 1),
-    ("down", 1000, 1),
-    ("send_nochange_cancel", 1, 2),
-    ("recv_cancel", 1, 2),
+    ("send_nochange_finalize", 1000, 2),
+    ("send_change_finalize", 1000, 2),
+    ("recv_cpfin", 1000, 2),
+    ("init_lock", 1000, 2),
+    ("scan_restore_receive", 1000, 2),
+    ("ttl_expire", 1000, 2),
+    ("down", 1000, 2),
+    ("send_nochange_cancel", 1, 3),
+    ("recv_cancel", 1, 3),
+    ("restore_two_refresh", 1, 3),
+    ("scan_cancel", 1, 3),
 ]
-THOROUGH = [(s, (2 if b == 1 else b), 2) for s, b, _ in QUICK]
+THOROUGH = [(s, (2 if b == 1 else b), 3) for s, b, _ in QUICK] + [("send3", 1000, 2)]
+
+KNOWN_TEXT = {
+    "C20-K1-stale-chain-view":
+        "two overlapping refresh bodies: a scan takes its wallet snapshot after another run's update_outputs "
+        "applied a block newer than the chain outputs the scan collected; it 'repairs' the rightly spent "
+        "output to Unspent and cancels the (confirmed) log entry",
+    "C20-K2-cancel-two-phase":
+        "cancel_tx checks (own refresh) and cancels (final section) in two phases; another run's "
+        "update_outputs that saw a newer block lands in between: entry cancelled although mined, input Spent",
+    "C20-K3-double-restore":
+        "two overlapping scans both snapshot the wallet before either restores the same missing output: "
+        "the output is restored twice, two confirmed TxReceived log entries for one output",
+}
+KNOWN_IDS = ["C20-K1-stale-chain-view", "C20-K2-cancel-two-phase", "C20-K3-double-restore"]
 
 
-def run_harness(binp, wd, jobs):
-    """jobs: list of (name, args). Runs them 16 at a time; returns {name: rows}."""
+def prefixes(n, depth):
+    res = [[]]
+    for _ in range(depth):
+        res = [p + [t] for p in res for t in range(n)]
+    return res
+
+
+def run_jobs(binp, wd, jobs):
+    """jobs: list of (name, args). 16 processes at a time. Returns {name: (rc, rows, log)}."""
     def one(job):
         name, args = job
         out = os.path.join(wd, name + ".jsonl")
+        if os.path.exists(out):
+            os.remove(out)
         rc, log = vlib.sh([binp, "--out", out] + args, timeout=3000)
-        rows = [json.loads(l) for l in open(out)] if os.path.exists(out) else []
+        rows = []
+        if os.path.exists(out):
+            for l in open(out):
+                try:
+                    rows.append(json.loads(l))
+                except ValueError:
+                    pass
         return name, rc, rows, log
     res = {}
     with ThreadPoolExecutor(max_workers=16) as ex:
         for name, rc, rows, log in ex.map(one, jobs):
             res[name] = (rc, rows, log)
     return res
+
+
+def run(tier, replay):
+    V = vlib.Verdict(PROP, tier)
+    wd = vlib.workdir(PROP)
+    for f in glob.glob(os.path.join(wd, "*.jsonl")):
+        os.remove(f)
+    (binp,) = vlib.build_harness(["c20"])
+    proof = vlib.proof_stage(PROP, V, "props/C20.v")
+
+    # ---- source scan: the section list of the model against the code
+    scan_problems, scan_info = source_scan()
+    if scan_problems:
+        V.violation({"property": PROP, "kind": "section-list",
+                     "correspondence": "critical sections of Sched.v (DESIGN A.7) vs wallet_lock! acquisitions in /repo",
+                     "theorems_no_longer_tied": proof["theorems"], "problems": scan_problems}, no_input=True)
+
+    rc, out = vlib.sh([binp, "--list"])
+    scen_threads = {x["name"]: x["threads"] for x in json.loads(out.strip().splitlines()[-1])}
+
+    # ---- jobs
+    jobs = []
+    corpus = sorted(glob.glob(os.path.join(vlib.VERIF, "corpus", PROP, "*.json")))
+    if replay:
+        corpus = [replay]
+    need_serial = set()
+    for k, f in enumerate(corpus):
+        c = json.load(open(f))
+        jobs.append(("corpus%d" % k, ["--replay", f]))
+        need_serial.add((c["scenario"], ",".join(c["threads"]) if c.get("threads") else ""))
+    plan = [] if replay else (QUICK if tier == "quick" else THOROUGH)
+    explored = {s for s, _, _ in plan}
+    for sc, thr in sorted(need_serial):
+        if sc not in explored or thr:
+            args = ["--scenario", sc, "--bound", "0"] + (["--threads", thr] if thr else [])
+            jobs.append(("serial_%s_%d" % (sc, len(jobs)), args))
+    for sc, bound, depth in plan:
+        for pf in prefixes(len(scen_threads[sc]), depth):
+            jobs.append(("dfs_%s_%s" % (sc, "".join(map(str, pf))),
+                         ["--scenario", sc, "--bound", str(bound), "--prefix", ",".join(map(str, pf))]))
+    results = run_jobs(binp, wd, jobs)
+
+    # ---- collect runs grouped by (scenario, threads); every job has its own base (header)
+    headers, runs = [], []
+    infra = []
+    for name, (rc_, rows, log) in sorted(results.items()):
+        h = None
+        for r in rows:
+            if r["kind"] == "header":
+                h = len(headers)
+                headers.append(r)
+            elif r["kind"] in ("dfs", "replay"):
+                r["_h"] = h
+                r["_job"] = name
+                runs.append(r)
+            elif r["kind"] == "footer" and r.get("nondeterminism"):
+                infra.append("%s: %d nondeterministic decision points" % (name, r["nondeterminism"]))
+        if rc_ not in (0, 3):
+            infra.append("%s: harness exit %s: %s" % (name, rc_, log[-400:]))
+    if infra and not runs:
+        raise vlib.Infra("; ".join(infra)[:2000])
+
+    # ---- the model on the same schedules
+    extra = "".join("Definition c20_s%d := %s.\nDefinition c20_k%d := %s.\n"
+                    % (i, state_term(h), i, cL([kind_term(t) for t in h["threads"]]))
+                    for i, h in enumerate(headers))
+    terms = ["(c20_s%d, c20_k%d, %s)" % (r["_h"], r["_h"], cL([cN(t) for t in r["schedule"]])) for r in runs]
+    model = vlib.coq_eval(PROP, "From GW Require Import Select Sched.", "run_case", terms, shard=250,
+                          extra_defs=extra) if runs else []
+
+    # ---- oracle + correspondence
+    groups = collections.defaultdict(list)
+    for r, m in zip(runs, model):
+        h = headers[r["_h"]]
+        groups[(h["scenario"], tuple(h["threads"]))].append((r, m, h))
+    divergences, oracle_fail, deadlocks = [], [], []
+    known_hits = collections.Counter()
+    stats = {}
+    finals_all = set()
+    steps_hist = collections.Counter()
+    res_hist = collections.Counter()
+    n_nonserial = 0
+    for (sc, threads), items in sorted(groups.items()):
+        ser = set()
+        for r, m, h in items:
+            if not r["deadlock"] and serial(threads, r["schedule"]):
+                ser.add(obs_key(threads, r))
+        fin = set()
+        n_bad = n_known = n_div = 0
+        for r, m, h in items:
+            if r["deadlock"]:
+                deadlocks.append({"scenario": sc, "threads": list(threads), "schedule": r["schedule"],
+                                  "steps": r["steps"]})
+                continue
+            key = obs_key(threads, r)
+            fin.add(key)
+            finals_all.add((sc, key))
+            steps_hist[str(r["steps"])] += 1
+            res_hist[str(r["results"])] += 1
+            rh, rr, finflags = real_rows(h, r)
+            mh, mr = model_rows(m, finflags)
+            if rh != mh or rr != mr:
+                n_div += 1
+                divergences.append({"scenario": sc, "threads": list(threads), "schedule": r["schedule"],
+                                    "impl": {"head": rh, "rows": rr}, "model": {"head": mh, "rows": mr}})
+            if key not in ser:
+                n_nonserial += 1
+                flags = m[0]
+                if any(flags):
+                    n_known += 1
+                    for kid, fl in zip(KNOWN_IDS, flags):
+                        if fl:
+                            known_hits[kid] += 1
+                else:
+                    n_bad += 1
+                    oracle_fail.append({"scenario": sc, "threads": list(threads), "schedule": r["schedule"],
+                                        "sections": m[1], "results": r["results"], "steps": r["steps"],
+                                        "final": r["snapshot"], "n_serial_finals": len(ser)})
+        stats[sc + ("" if list(threads) == scen_threads.get(sc) else " " + ",".join(threads))] = {
+            "schedules": len(items), "serial_schedules": sum(1 for r, _, _ in items if serial(threads, r["schedule"])),
+            "serial_finals": len(ser), "distinct_finals": len(fin), "non_serializable_known_shape": n_known,
+            "non_serializable_other": n_bad, "model_divergences": n_div}
+
+    open_ids = {k["id"] for k in vlib.known_findings(PROP)}
+    for kid, n in sorted(known_hits.items()):
+        if kid in open_ids:
+            V.known_finding("%s (%d schedules): %s" % (kid, n, KNOWN_TEXT[kid]))
+        else:
+            V.violation({"property": PROP, "kind": "oracle", "what": "non-serializable schedule of shape %s, "
+                         "which is not recorded as an open finding" % kid})
+    for d in deadlocks[:3]:
+        V.violation({"property": PROP, "kind": "deadlock", "what": "watchdog: a thread never reached its next "
+                     "lock acquisition / end (deadlock or hang)", "scenario": d["scenario"],
+                     "threads": d["threads"], "schedule": d["schedule"], "steps": d["steps"],
+                     "replay_cmd": "./check C20 --replay <this file>"})
+    for f in oracle_fail[:3]:
+        V.violation({"property": PROP, "kind": "oracle",
+                     "what": "final wallet state + operation results not reached by any serial order of the "
+                             "same operations (and the schedule has none of the recorded shapes)",
+                     "scenario": f["scenario"], "threads": f["threads"], "schedule": f["schedule"],
+                     "sections": f["sections"], "results": f["results"], "steps": f["steps"],
+                     "final": f["final"], "n_serial_finals": f["n_serial_finals"],
+                     "replay_cmd": "./check C20 --replay <this file>"})
+    if divergences and not oracle_fail and not deadlocks:
+        V.violation({"property": PROP, "kind": "correspondence",
+                     "correspondence": "Sched.step/run (coq/theories/Sched.v) vs owner::{update_wallet_state,scan,"
+                                       "cancel_tx,retrieve_txs,...} under the cooperative scheduler",
+                     "theorems_no_longer_tied": proof["theorems"], "n_divergences": len(divergences),
+                     "cases": [{"scenario": d["scenario"], "threads": d["threads"], "schedule": d["schedule"]}
+                               for d in divergences[:5]],
+                     "first": divergences[:2]}, no_input=True)
+    if infra:
+        V.violation({"property": PROP, "kind": "harness", "problems": infra[:5]}, no_input=True)
+
+    cov = dict(proof)
+    samples = [{"scenario": headers[r["_h"]]["scenario"], "threads": headers[r["_h"]]["threads"],
+                "schedule": r["schedule"], "sections": m[1], "steps": r["steps"], "results": r["results"]}
+               for r, m in list(zip(runs, model))[:2] + list(zip(runs, model))[-2:]]
+    cov.update({
+        "evaluations": len(runs),
+        "distinct_nontrivial": len(finals_all),
+        "rule": "every complete schedule (DFS with re-execution on a fresh copy of the prepared wallets) of each "
+                "scenario's threads within the preemption bound, at wallet_lock! granularity; environment steps "
+                "(block mined, counterparty finalizes, node down/up) land anywhere; non-trivial = distinct final "
+                "(projected wallet state, operation results) per scenario",
+        "samples": samples,
+        "traces_validated_against_impl": len(runs) - len(divergences),
+        "exhaustive": all(b >= 1000 for _, b, _ in plan) and bool(plan),
+        "exhaustive_within_preemption_bound": True,
+        "schedules_enumerated": len(runs),
+        "distinct_final_states": len(finals_all),
+        "non_serializable_schedules": n_nonserial,
+        "sections_per_thread_histogram": dict(steps_hist.most_common(12)),
+        "operation_results_histogram": dict(res_hist.most_common(12)),
+        "per_scenario": stats,
+        "preemption_bounds": {s: b for s, b, _ in plan},
+        "corpus_cases": len(corpus),
+        "divergences": len(divergences),
+        "oracle_failures": len(oracle_fail),
+        "deadlocks": len(deadlocks),
+        "known_finding_hits": dict(known_hits),
+        "source_scan": scan_info,
+    })
+    return V.finish(cov, [
+        "lock-granular: one step = one critical section plus the node calls up to the next acquisition; OS "
+        "scheduling inside a section, LMDB-internal concurrency and memory effects are not exhibited",
+        "serial reference = all serial orders of the wallet operations with environment events (block mined, "
+        "counterparty actions, node down/up) landing anywhere; the refresh's own return value is not compared",
+        "log ids are compared up to renaming; confirmed/scanned heights are checked against the model but are "
+        "not part of the serializability observation (the property does not name them)",
+        "cancel_tx scenarios and scenarios with two refresh bodies are explored within a preemption bound "
+        "(quick 1, thorough 2); scenarios whose other threads are single sections are explored completely",
+        "single account, AutomatedTesting chain, one wallet under test; api::Owner/Foreign calls are driven through "
+        "libwallet::api_impl with the scheduler gate in front of their single lock acquisition",
+    ])
